@@ -39,6 +39,19 @@ def main():
             n += 1
         if ent:
             table[cn] = ent
+    known = {}
+    for cn in sorted(facts.crates()):
+        cr = facts.crate(cn)
+        known[cn] = sorted({b["def"] for b in cr.index if "promoted" not in b})
+    with open(os.path.join(os.path.dirname(OUT), "known_fns.json"), "w") as f:
+        f.write("{\n")
+        for ci, cn in enumerate(sorted(known)):
+            f.write(" %s: [\n" % json.dumps(cn))
+            for di, dp in enumerate(known[cn]):
+                f.write("  %s%s\n" % (json.dumps(dp), "," if di + 1 < len(known[cn]) else ""))
+            f.write(" ]%s\n" % ("," if ci + 1 < len(known) else ""))
+        f.write("}\n")
+    print("known_fns: %d functions" % sum(len(v) for v in known.values()))
     with open(OUT, "w") as f:
         # one function per line: diffs of the frozen table stay readable
         f.write("{\n")
